@@ -736,8 +736,11 @@ def run(ck):
     import numpy as np
 
     ok, info = ck.lean_obligations("DS.Props.C01")
+    tie_ok, tie_info = ck.source_tie("DS.Props.SrcLattice")  # model = transliteration of lattice.py (rfl)
     quick = ck.tier == "quick"
     ncell = 400 if quick else 20000
+    if not tie_ok:
+        ncell *= 4  # broken source tie: widen the failing-input search
     nvec = 12 if quick else 4
     rng = ck.rng
     ck.coverage["rule"] = (
@@ -887,6 +890,7 @@ def run(ck):
                        "cells are generated well-conditioned (unit volume >= 0.2, angles in [14,166] degrees)"]
     if ok and not quick:
         leanchecker(ck, "DS.Props.C01")
+    ck.tie_verdict(tie_ok, tie_info, "lattice.py")
     if not ok and not ck.violations:
         fail_once(ck, "lean-build", "Lean obligations of C01 no longer check: %r" % info["failed_modules"],
                 {"kind": "proof-obligation", "theorem": info["failed_modules"], "errors": info["errors"]}, no_failing_input=True)
